@@ -176,6 +176,8 @@ func specSort(s string) string {
 		return "Int"
 	case "bool", "Bool":
 		return "Bool"
+	case "string", "Str":
+		return "Str"
 	}
 	return s
 }
@@ -547,6 +549,11 @@ func (vc *VC) indexSpec(x, i SV, env *SpecEnv) SV {
 			return SV{t: sel(sel(h, app("s_ref", x.t)), add(app("s_off", x.t), i.t)), typ: u.Elem()}
 		case *types.Array:
 			return SV{t: sel(x.t, i.t), typ: u.Elem()}
+		case *types.Map:
+			// Go semantics: the zero value for an absent key (see has(m, k))
+			hv, hp, _, _ := vc.mapHeaps(u)
+			present := and(not(eq(x.t, "0")), sel(sel(vc.heapGet(env.cur, hp), x.t), i.t))
+			return SV{t: ite(present, sel(sel(vc.heapGet(env.cur, hv), x.t), i.t), vc.zero(u.Elem())), typ: u.Elem()}
 		case *types.Pointer:
 			if a, ok := u.Elem().Underlying().(*types.Array); ok {
 				d := vc.derefSpec(x, env)
@@ -758,6 +765,45 @@ func (vc *VC) evalCall(e *Expr, env *SpecEnv) SV {
 			return mathBool(not(vc.nilOf(x)))
 		}
 		return mathBool(tTrue)
+	case "global":
+		// global("import/path.Name"): the current value of a package-level variable of any loaded package
+		if len(args) != 1 || args[0].Op != "str" {
+			vc.errorf("spec: global(\"path.Name\")")
+			return mathInt("0")
+		}
+		q := args[0].Name
+		k := strings.LastIndex(q, ".")
+		if k > 0 {
+			for _, sp := range vc.eng.prog.AllPackages() {
+				if sp.Pkg.Path() == q[:k] || sp.Pkg.Path() == repoMod+"/"+q[:k] {
+					if g := sp.Var(q[k+1:]); g != nil {
+						ptr := vc.globalRef(g)
+						return SV{t: vc.loadLoc(env.cur, vc.locOf(ptr)), typ: derefType(g.Type())}
+					}
+				}
+			}
+		}
+		vc.errorf("spec: global: unknown variable %s", q)
+		return mathInt("0")
+	case "has":
+		// has(m, k): key k is present in Go map m
+		m, k := ev(0), ev(1)
+		mt, ok := m.typ.Underlying().(*types.Map)
+		if m.typ == nil || !ok {
+			vc.errorf("spec: has(m, k) needs a Go map")
+			return mathBool(tFalse)
+		}
+		_, hp, _, _ := vc.mapHeaps(mt)
+		return mathBool(and(not(eq(m.t, "0")), sel(sel(vc.heapGet(env.cur, hp), m.t), k.t)))
+	case "str":
+		// str(b): string(b) for a []byte in value mode
+		b := ev(0)
+		if b.sortIn(vc) != "Bytes" {
+			vc.errorf("spec: str(b) needs a value-mode []byte")
+			return SV{t: vc.strLit(""), srt: "Str"}
+		}
+		vc.declBytesStr()
+		return SV{t: app("bytes2str", b.t), srt: "Str"}
 	case "unbox":
 		// unbox(x, "path.Type"): the concrete value of that type held by interface value x
 		x := ev(0)
